@@ -13,7 +13,7 @@ CONTROLS = "m07a m07c m08d m12e m12f m17c m17d m18a m18c m19c n01 n02 n04 n09 n1
 NOT_BUILT = {
  'C01': "the (B) cross-check with two callers + reader + closer; `mcp.call`'s mapping of closed connections is asserted in the C04 harness (`C01.closed-connection-identified`).",
  'C02': "the SSE transport's POST validation (the streamable `servePOST` pre-validation is built: `zzC02Prevalidation`).",
- 'C03': "H2 as a scheduler search: ordering is decided by the (A) queue-step harness instead (H4, 202-after-enqueue, is built: `zzC03Accepted`).",
+ 'C03': "nothing essential: H2 is built as `zzConnStillRunning` (encoding B), H3 as the (A) queue-step harness, H4 as `zzC03Accepted`.",
  'C05': "H3 (global deadlock-freedom search, lock-order graph); `ClientSession.Close` (symmetric to the server side) is not instantiated.",
  'C07': "nothing of the plan; not covered: races inside `Server.Connect` (seeded C07c, §8).",
  'C08': "built as an exhaustive bounded exploration of one logical stream (all splits, cursors, generations) rather than as an (A) invariant step; concurrent writers racing with `acquireStream` are outside.",
